@@ -156,6 +156,63 @@ proof! {
     }
 }
 
+// engine level: a disconnect notice processed by the Engine marks exactly that exchange's link and invokes the
+// on-disconnect strategy exactly once, for the right exchange
+static mut DISCONNECTS: [u8; 2] = [0; 2];
+struct Counting;
+impl<Clock, State, Txs, Risk> barter::strategy::on_disconnect::OnDisconnectStrategy<Clock, State, Txs, Risk> for Counting {
+    type OnDisconnect = ();
+    fn on_disconnect(_: &mut barter::engine::Engine<Clock, State, Txs, Self, Risk>, exchange: ExchangeId) {
+        unsafe {
+            if exchange == ExchangeId::BinanceSpot { DISCONNECTS[0] += 1 } else if exchange == ExchangeId::Kraken { DISCONNECTS[1] += 1 } else { panic!("C14: on_disconnect for an unknown exchange") }
+        }
+    }
+}
+proof! {
+    #[kani::unwind(12)]
+    fn c14_t_engine_disconnect_notice() {
+        use crate::world::*;
+        use barter::{Sequence, engine::{Engine, EngineMeta, state::{instrument::data::DefaultInstrumentMarketData, order::Orders, position::PositionManager, trading::TradingState}}};
+        use barter::execution::AccountStreamEvent;
+        use barter_data::{event::DataKind, streams::consumer::MarketStreamEvent};
+        use barter_instrument::instrument::InstrumentIndex;
+        unsafe { DISCONNECTS = [0; 2]; }
+        let istate = instrument_state(0, instrument(0, "btc_usdt", 0, 1), PositionManager::default(), Orders::default(), DefaultInstrumentMarketData::default());
+        let mut state = engine_state(TradingState::Disabled, instrument_states_1(("btc_usdt", istate)));
+        // arbitrary link health satisfying the invariant
+        let flags = [(any_health(), any_health()), (any_health(), any_health())];
+        let all = flags[0].0 == Health::Healthy && flags[0].1 == Health::Healthy && flags[1].0 == Health::Healthy && flags[1].1 == Health::Healthy;
+        state.connectivity = connectivity_2(if all { Health::Healthy } else { Health::Reconnecting },
+            (ExchangeId::BinanceSpot, ConnectivityState { market_data: flags[0].0, account: flags[0].1 }),
+            (ExchangeId::Kraken, ConnectivityState { market_data: flags[1].0, account: flags[1].1 }));
+        let mut engine = Engine { clock: (), meta: EngineMeta { time_start: crate::gens::time_at(0), sequence: Sequence(0) }, state, execution_txs: (), strategy: Counting, risk: () };
+        let x = any_usize_lt(2);
+        let exchange = if x == 0 { ExchangeId::BinanceSpot } else { ExchangeId::Kraken };
+        let market = any_bool();
+        if market {
+            let event: MarketStreamEvent<InstrumentIndex, DataKind> = MarketStreamEvent::Reconnecting(exchange);
+            let _ = engine.update_from_market_stream(&event);
+        } else {
+            let event: AccountStreamEvent = AccountStreamEvent::Reconnecting(exchange);
+            let _ = engine.update_from_account_stream(&event);
+        }
+        unsafe {
+            assert!(DISCONNECTS[x] == 1 && DISCONNECTS[1 - x] == 0, "C14: on-disconnect strategy not invoked exactly once for the right exchange");
+        }
+        let mut i = 0;
+        while i < 2 {
+            let s = engine.state.connectivity.connectivity_index(&ExchangeIndex(i));
+            let mut want = flags[i];
+            if i == x { if market { want.0 = Health::Reconnecting } else { want.1 = Health::Reconnecting } }
+            assert!(s.market_data == want.0 && s.account == want.1, "C14: a disconnect notice must mark exactly that exchange's link as reconnecting");
+            i += 1;
+        }
+        assert!(engine.state.connectivity.global == Health::Reconnecting, "C14: global health still healthy after a disconnect notice");
+        kani::cover!(all && market && x == 1, "healthy system, market link of the second exchange drops");
+        core::mem::forget(engine);
+    }
+}
+
 proof! {
     #[kani::unwind(6)]
     fn c14_twin_must_fail() {
